@@ -33,15 +33,18 @@ GEOMS = [{"type": "Point", "coordinates": [24.94, 60.17]}, {"type": "LineString"
          {"type": "GeometryCollection", "geometries": [{"type": "Point", "coordinates": [1, 2]}]}, None]
 MEMBER_NAMES = ["name", "crs", "bbox", "x-meta", "with space", 'quo"te', "back\\slash", "ünï", "日本", "tab\tname", "new\nline", "a/b"]
 MEMBER_VALUES = ["text", 3, 2.5, True, None, [1, "a", None, {"k": [1.5]}], {"type": "name", "properties": {"name": "urn:ogc:def:crs:OGC:1.3:CRS84"}},
-                 {"nested": {"deep": [1, {"x": 'q"uote'}]}}, "back\\slash \"q\"", [0.0, 1.0, 2.0, 3.0]]
+                 {"nested": {"deep": [1, {"x": 'q"uote'}]}}, "back\\slash \"q\"", [0.0, 1.0, 2.0, 3.0],
+                 # characters some text utilities treat as line boundaries, at several depths
+                 "ls\u2028sep", {"deep": ["ps\u2029x", {"y": "nel\x85z"}]}, ["a\u2028b"]]
 
 def generate(rng, tier):
     nf = rng.choice([0, 1, 2, 3, 5, 8])
     if rng.random() < 0.004:
         nf = rng.choice([1001, 1500, 2500])      # size-dependent writer/reader paths
-    keys = rng.sample(["id", "name", "pop", "ratio", "flag", "a b", "ünï"], rng.randint(0, 5))
+    # incl. names that are not in Unicode normal form (decomposed accent, compatibility characters): distinct keys stay distinct and unchanged
+    keys = rng.sample(["id", "name", "pop", "ratio", "flag", "a b", "ünï", "e\u0301", "\u00e9", "\u00b5m", "\ufb01x"], rng.randint(0, 5))
     kinds = {k: rng.choice(["bool", "int", "float", "str"]) for k in keys}
-    pools = {"bool": [True, False], "int": [0, 1, -5, 10**12], "float": [0.5, -2.25, 1e-7, 3.0], "str": ["x", "a b", 'q"uote', "ünï", "back\\slash", "line\nbreak"]}
+    pools = {"bool": [True, False], "int": [0, 1, -5, 10**12], "float": [0.5, -2.25, 1e-7, 3.0], "str": ["x", "a b", 'q"uote', "ünï", "back\\slash", "line\nbreak", "ls\u2028sep", "e\u0301"]}
     feats = []
     for i in range(nf):
         props = {}
